@@ -698,10 +698,10 @@ class Header(Iterable):
         n = 0
         nn = self.n
         for v in self._instream:
-            if n >= nn:
-                break
             yield v
             n += 1
+            if n >= nn:
+                break
 
 
 class Tailer(Iterable):
